@@ -472,7 +472,7 @@ pub struct Family {
     pub kind: FamilyKind,
 }
 
-pub const FAMILIES: [Family; 37] = [
+pub const FAMILIES: [Family; 40] = [
     Family { name: "paren-a", kind: FamilyKind::Nest },
     Family { name: "paren-num", kind: FamilyKind::Nest },
     Family { name: "array-num", kind: FamilyKind::Nest },
@@ -490,6 +490,9 @@ pub const FAMILIES: [Family; 37] = [
     Family { name: "content-status", kind: FamilyKind::Nest },
     Family { name: "content-status-media", kind: FamilyKind::Nest },
     Family { name: "content-headers-media", kind: FamilyKind::Nest },
+    Family { name: "ann-array", kind: FamilyKind::Nest },
+    Family { name: "ann-paren", kind: FamilyKind::Nest },
+    Family { name: "ann-object", kind: FamilyKind::Nest },
     Family { name: "open-paren", kind: FamilyKind::Nest },
     Family { name: "open-array", kind: FamilyKind::Nest },
     Family { name: "open-object", kind: FamilyKind::Nest },
@@ -552,6 +555,10 @@ pub fn family_text(name: &str, d: usize) -> String {
         "content-status" => format!("{}200{}", rep("<status=", d), rep(">", d)),
         "content-status-media" => format!("{}200{}", rep("<status=", d), rep(", media=/a/b>", d)),
         "content-headers-media" => format!("{}str{}", rep("<headers={'h ", d), rep("}, media=\"a/b\">", d)),
+        // every level starts with a line annotation (annotations sit in front of terms)
+        "ann-array" => format!("{}num{}", rep("[ # d: x\n ", d), rep("]", d)),
+        "ann-paren" => format!("{}num{}", rep("( # d: x\n ", d), rep(")", d)),
+        "ann-object" => format!("{}num{}", rep("{ # d: x\n 'p ", d), rep("}", d)),
         // brackets opened and never (or wrongly) closed: the parse fails at every level
         "open-paren" => format!("{}a", rep("(", d)),
         "open-array" => format!("{}num", rep("[", d)),
